@@ -175,10 +175,11 @@ Record pstate := PS {
   pstack : list pframe;              (* open containers, innermost first (builderStack without the top-level builder) *)
   presult : option uval;             (* BuilderEventReceiver.object once the top-level value is complete *)
   pnext : N;                         (* fresh pointer identities *)
-  pdata : bytes; prem : N; pmore : bool; pcb : cbkind      (* chunkedData, chunkRemainingLength, moreChunksFollow, callback *)
+  pdata : bytes; prem : N; pmore : bool; pcb : cbkind; pbits : N
+                                     (* chunkedData, chunkRemainingLength, moreChunksFollow, callback, arrayElementBitWidth *)
 }.
 
-Definition pinit : pstate := PS [] None 1 [] 0 false CBNone.
+Definition pinit : pstate := PS [] None 1 [] 0 false CBNone 0.
 
 Definition fval (fr : pframe) : uval :=
   match fr with PList l => UList l | PMap kvs _ => UMap 0 kvs end.
@@ -199,14 +200,14 @@ Definition absorb_ok (x : uval) (fr : pframe) : bool :=
   end.
 
 Definition set_pstack (st : pstate) (s : list pframe) : pstate :=
-  PS s (presult st) (pnext st) (pdata st) (prem st) (pmore st) (pcb st).
-Definition set_pchunk (st : pstate) (d : bytes) (r : N) (m : bool) (cb : cbkind) : pstate :=
-  PS (pstack st) (presult st) (pnext st) d r m cb.
+  PS s (presult st) (pnext st) (pdata st) (prem st) (pmore st) (pcb st) (pbits st).
+Definition set_pchunk (st : pstate) (d : bytes) (r : N) (m : bool) (cb : cbkind) (bits : N) : pstate :=
+  PS (pstack st) (presult st) (pnext st) d r m cb bits.
 
 Definition pdeliver (x : uval) (st : pstate) : option pstate :=
   match pstack st with
   | [] => match presult st with
-          | None => Some (PS [] (Some x) (pnext st) (pdata st) (prem st) (pmore st) (pcb st))
+          | None => Some (PS [] (Some x) (pnext st) (pdata st) (prem st) (pmore st) (pcb st) (pbits st))
           | Some _ => None
           end
   | fr :: below => if absorb_ok x fr then Some (set_pstack st (absorb x fr :: below)) else None
@@ -222,7 +223,7 @@ Section Plain.
 
   Definition pscalar (sc : scalar) (st : pstate) : option pstate :=
     match conv url_conv time_conv (pnext st) sc with
-    | Some x => pdeliver x (PS (pstack st) (presult st) (pnext st + 1) (pdata st) (prem st) (pmore st) (pcb st))
+    | Some x => pdeliver x (PS (pstack st) (presult st) (pnext st + 1) (pdata st) (prem st) (pmore st) (pcb st) (pbits st))
     | None => None
     end.
 
@@ -244,14 +245,16 @@ Section Plain.
         | fr :: below => pdeliver (fval fr) (set_pstack st below)
         | [] => None
         end
-    | EArrayBegin t => Some (set_pchunk st [] (prem st) (pmore st) (CBArray t))
-    | EMediaBegin mt => Some (set_pchunk st [] (prem st) (pmore st) (CBMedia mt))
+    | EArrayBegin t =>
+        if t <? AT_Count then Some (set_pchunk st [] (prem st) (pmore st) (CBArray t) (elem_bits t)) else None
+    | EMediaBegin mt => Some (set_pchunk st [] (prem st) (pmore st) (CBMedia mt) 8)
     | EArrayChunk n more =>
-        let st1 := set_pchunk st (pdata st) n more (pcb st) in
-        if negb more && (n =? 0) then pfire st1 else Some st1
+        (* the chunk length is in elements, the data arrives in bytes *)
+        let st1 := set_pchunk st (pdata st) (elem_byte_count (pbits st) n) more (pcb st) (pbits st) in
+        if negb more && (elem_byte_count (pbits st) n =? 0) then pfire st1 else Some st1
     | EArrayData d =>
         let r := (prem st + Build.two64 - (N.of_nat (length d)) mod Build.two64) mod Build.two64 in
-        let st1 := set_pchunk st (pdata st ++ d) r (pmore st) (pcb st) in
+        let st1 := set_pchunk st (pdata st ++ d) r (pmore st) (pcb st) (pbits st) in
         if negb (pmore st) && (r =? 0) then pfire st1 else Some st1
     | ENode | EEdge | EMarker _ | ERefLocal _ | ERecordType _ | ERecord _ | ECustomBegin _ _ => None
     | _ => match event_scalar e with Some sc => pscalar sc st | None => None end
